@@ -18,6 +18,7 @@ import (
 	"encoding/json"
 	"fmt"
 	"strings"
+	"sync"
 	"time"
 
 	builderclient "github.com/attestantio/go-builder-client"
@@ -136,9 +137,18 @@ func (s *Service) unblindProposal(ctx context.Context,
 	// semaphore to track if a signed block has been returned by any provider.
 	sem := semaphore.NewWeighted(1)
 
-	respCh := make(chan *api.VersionedSignedProposal, 1)
+	// The channel has room for every provider, so that those that return a block after the first do not block for ever.
+	// It is closed once every provider has finished, so that the receiver is not left waiting if none of them succeeds.
+	respCh := make(chan *api.VersionedSignedProposal, len(providers))
+	var finished sync.WaitGroup
+	finished.Add(len(providers))
+	go func() {
+		finished.Wait()
+		close(respCh)
+	}()
 	for _, provider := range providers {
 		go func(ctx context.Context, provider builderclient.UnblindedProposalProvider, ch chan *api.VersionedSignedProposal) {
+			defer finished.Done()
 			log := s.log.With().Str("provider", provider.Address()).Logger()
 			log.Trace().Msg("Unblinding block with provider")
 
@@ -195,6 +205,11 @@ func (s *Service) unblindProposal(ctx context.Context,
 		s.log.Warn().Msg("Failed to obtain unblinded block")
 		return errors.New("failed to obtain unblinded block")
 	case signedProposal := <-respCh:
+		if signedProposal == nil {
+			// The channel has been closed: every provider has finished without supplying a block.
+			s.log.Warn().Msg("No provider supplied an unblinded block")
+			return errors.New("failed to obtain unblinded block")
+		}
 		if e := s.log.Trace(); e.Enabled() {
 			data, err := json.Marshal(signedProposal)
 			if err == nil {
